@@ -371,3 +371,28 @@ func (i *Inst) Stop2() {
 	i.StNc.Close()
 	nats.RemoveBus(i.URL)
 }
+
+// ReadRootEdges returns the ids of all nodes placed directly under "root" in a
+// store file, and the root id recorded in meta (harness privilege: straight SQL).
+func ReadRootEdges(file string) (roots []string, metaRoot string, err error) {
+	db, err := sql.Open("sqlite", file+"?_pragma=busy_timeout(8000)")
+	if err != nil {
+		return nil, "", err
+	}
+	defer db.Close()
+	rows, err := db.Query("SELECT down FROM edges WHERE up='root'")
+	if err != nil {
+		return nil, "", err
+	}
+	for rows.Next() {
+		var d string
+		if err := rows.Scan(&d); err != nil {
+			rows.Close()
+			return nil, "", err
+		}
+		roots = append(roots, d)
+	}
+	rows.Close()
+	err = db.QueryRow("SELECT root_id FROM meta").Scan(&metaRoot)
+	return roots, metaRoot, err
+}
